@@ -220,6 +220,10 @@ def run(chk: Check):
             if tiny:
                 # default candidate pool (the option left at None), everything else small for speed
                 opts = {k: v for k, v in (ch.SMALL_OPTS.get(name) or {}).items() if k != "candidate_pool_size"}
+                if name in ("GaussianProcessSampler", "RandomForestSampler", "XGBoostSampler") and rng.random() < 0.6:
+                    # ... or a pool barely larger than the batch: on a nearly explored space most of its draws are known points
+                    opts["candidate_pool_size"] = bs + rng.randint(0, 2 * bs)
+                    chk.count("tiny_space:small_candidate_pool")
             chk.count("options:" + ("random" if opts is not ch.SMALL_OPTS.get(name) else "default"))
             if name != "ParticleSwarmSampler" and name in reused and rng.random() < 0.4 and not tiny:
                 # a sampler object that has already served other search spaces (of other dimensions); the swarm sampler is excluded, it
@@ -266,7 +270,11 @@ def run(chk: Check):
                         try:
                             out = smp.sample(sp, pts, losses)
                         except Exception as e:  # noqa: BLE001
-                            if name in ("GaussianProcessSampler", "CORSSampler", "RandomForestSampler", "XGBoostSampler"):
+                            import traceback
+                            import black_it as _bi
+                            frames = traceback.extract_tb(e.__traceback__)
+                            raised_in_library = bool(frames) and frames[-1].filename.startswith(str(Path(_bi.__file__).resolve().parent))
+                            if name in ("GaussianProcessSampler", "CORSSampler", "RandomForestSampler", "XGBoostSampler") and not raised_in_library:
                                 chk.count(f"skipped:{name}:{type(e).__name__}")      # third-party failure (e.g. GP on degenerate data) is not a C03 matter
                             else:
                                 chk.fail(f"{name}.sample raised {type(e).__name__}: {str(e)[:100]} on an admissible space and history (no batch at all)",
